@@ -19,7 +19,7 @@ PROPERTY = "C05"
 FUNCTIONS = ["DefaultArgsParser.__init__/parse (+ everything it calls)", "ArgvArgs.__init__/tokens", "StringArgs.tokens", "ArgsFormat listings"]
 PART = {}
 BOUNDS = {"quick": "histories of 2 parses (2 tokens from a 5-literal menu, then 2 tokens from a 4-literal menu observed in strict mode) over 5 format pairs incl. same-names/different-flags; 3-parse histories (1+1+2 tokens) over 2 pairs; non-mutation with 2 symbolic tokens <= 2 chars",
-          "thorough": "same shapes over a 7-literal menu for every token, both leniencies for the observed parse, 12 format pairs"}
+          "thorough": "same shapes over a 7-literal menu for every token (observed parse strict, first parse either leniency), 8 format pairs, 3-parse histories over 4 pairs"}
 OUTSIDE = ["histories of 4-6 parses (property says 6): a parser's only carried state is what the last parses left in _arguments/_options (and any cache a change might add), which 2-3 parses already exercise",
            "tokens outside the menu", "custom ArgsParser implementations set through Config.set_args_parser (only DefaultArgsParser is encoded)"]
 STUBS = []
@@ -33,7 +33,7 @@ MENU = ["x", "y", "-f", "--opt=x", "-o", "--zz", ""]      # thorough
 MENU_A = ["x", "-f", "--opt=x", "-o", "--zz"]               # quick: tokens of the first line (leave state behind / fail)
 MENU_B = ["x", "-f", "", "--opt=x"]                         # quick: tokens of the observed line
 PAIRS = [("S1", "S1"), ("S2", "S2"), ("S1", "S1B"), ("S1B", "S1"), ("S1", "S6"), ("S4", "S4"), ("S5", "S1")]
-PAIRS_T = PAIRS + [("S3", "S3"), ("S6", "S1"), ("S8", "S1"), ("S2", "S1"), ("S7", "S7")]
+PAIRS_T = [("S1", "S1"), ("S1", "S1B"), ("S1B", "S1"), ("S2", "S2"), ("S4", "S4"), ("S5", "S1"), ("S3", "S3"), ("S2", "S6")]
 ALLOWED = (CannotParseArgsException, NoSuchOptionException, ValueError)
 
 
@@ -152,17 +152,17 @@ def no_mutation_string(t1: str, t2: str, lenient: bool) -> bool:
 
 def conditions(tier):
     quick = tier == "quick"
-    t = 90 if quick else 900
+    t = 90 if quick else 600
     conds = []
     full = not quick
     ma = MENU if full else MENU_A
     for fa, fb in ([("S1", "S1"), ("S1", "S1B"), ("S1B", "S1"), ("S2", "S2"), ("S4", "S4")] if quick else PAIRS_T):
         for a1 in range(len(ma)):
             conds.append({"name": "two_parses[%s>%s,%r]" % (fa, fb, ma[a1]), "fn": two_parses, "timeout": t,
-                          "part": {"fa": fa, "fb": fb, "a1": a1, "full": full, "lb": False if quick else None},
+                          "part": {"fa": fa, "fb": fb, "a1": a1, "full": full, "lb": False},
                           "bounds": "parse [%r, m] with %s (either leniency) then [m', m'] with %s (%s) on one parser; m in %r, m' in %r" % (
-                              ma[a1], fa, fb, "strict" if quick else "either leniency", ma, MENU if full else MENU_B)})
-    for fa, fb in ([("S1", "S1"), ("S1", "S1B")] if quick else PAIRS_T):
+                              ma[a1], fa, fb, "strict", ma, MENU if full else MENU_B)})
+    for fa, fb in ([("S1", "S1"), ("S1", "S1B")] if quick else [("S1", "S1"), ("S1", "S1B"), ("S2", "S2"), ("S4", "S4")]):
         for a1 in range(len(ma)):
             conds.append({"name": "three_parses[%s,%s,%r]" % (fa, fb, ma[a1]), "fn": three_parses, "timeout": t, "part": {"fa": fa, "fb": fb, "a1": a1, "full": full},
                           "bounds": "[%r] with %s strict, [m] with %s, then [m', m'] with %s on one parser" % (ma[a1], fa, fb, fa)})
